@@ -71,9 +71,62 @@ class CustomFilter(sansldap.LDAPFilter):
         return CustomFilter(value=value)
 
 
-BY_NAME = {"CustomAuth": CustomAuth, "CustomControl": CustomControl, "CustomFilter": CustomFilter}
+# Alternative types that claim the SAME choice id / OID as the ones above (two applications in
+# one process may each define their own class for a private id; registrations are per session).
+
+
+@dataclasses.dataclass(frozen=True)
+class AltAuth(sansldap.AuthenticationCredential):
+    auth_id: int = dataclasses.field(init=False, repr=False, default=1024)
+
+    token: bytes
+
+    def pack(self, writer: ASN1Writer, options: sansldap.AuthenticationOptions) -> None:
+        writer.write_octet_string(self.token, tag=ASN1Tag(TagClass.CONTEXT_SPECIFIC, self.auth_id, False))
+
+    @classmethod
+    def unpack(cls, reader: ASN1Reader, options: sansldap.AuthenticationOptions) -> "AltAuth":
+        return AltAuth(token=reader.read_octet_string(tag=ASN1Tag(TagClass.CONTEXT_SPECIFIC, cls.auth_id, False), hint="AltAuth.token"))
+
+
+@dataclasses.dataclass(frozen=True)
+class AltControl(sansldap.LDAPControl):
+    control_type: str = dataclasses.field(init=False, repr=False, default="1.2.3.4")
+    value: t.Optional[bytes] = dataclasses.field(init=False, repr=False, default=None)
+
+    level: int
+
+    def get_value(self, options: sansldap.ControlOptions) -> t.Optional[bytes]:
+        return self.level.to_bytes(8, byteorder="little")
+
+    @classmethod
+    def unpack(cls, control_type: str, critical: bool, value: t.Optional[bytes], options: sansldap.ControlOptions) -> "AltControl":
+        return AltControl(critical=critical, level=int.from_bytes(value or b"", "little"))
+
+
+@dataclasses.dataclass(frozen=True)
+class AltFilter(sansldap.LDAPFilter):
+    filter_id: int = dataclasses.field(init=False, repr=False, default=1024)
+
+    raw: bytes
+
+    def pack(self, writer: ASN1Writer, options: sansldap.FilterOptions) -> None:
+        writer.write_octet_string(self.raw, tag=ASN1Tag(TagClass.CONTEXT_SPECIFIC, self.filter_id, False))
+
+    @classmethod
+    def unpack(cls, reader: ASN1Reader, options: sansldap.FilterOptions) -> "AltFilter":
+        return AltFilter(raw=reader.read_octet_string(ASN1Tag(TagClass.CONTEXT_SPECIFIC, cls.filter_id, False))[::-1])
+
+
+BY_NAME = {"CustomAuth": CustomAuth, "CustomControl": CustomControl, "CustomFilter": CustomFilter,
+           "AltAuth": AltAuth, "AltControl": AltControl, "AltFilter": AltFilter}
 REGISTER_METHOD = {
     "CustomAuth": "register_auth_credential",
     "CustomControl": "register_control",
     "CustomFilter": "register_filter",
+    "AltAuth": "register_auth_credential",
+    "AltControl": "register_control",
+    "AltFilter": "register_filter",
 }
+SLOT = {"CustomAuth": "auth", "AltAuth": "auth", "CustomControl": "control", "AltControl": "control",
+        "CustomFilter": "filter", "AltFilter": "filter"}
